@@ -510,6 +510,8 @@ def type_and_value(draw, cfg=None):
         return empties_case(d)
     if c['choice'] and c['tags'] and c['implicit'] and not c.get('root_kinds') and c['max_depth'] >= 2 and d.pct(c.get('directed_pct', 2) / 2.0):
         return many_choice_case(d)
+    if c['defaults'] and not c.get('root_kinds') and c['max_depth'] >= 2 and d.pct(c.get('directed_pct', 2)):
+        return codec_sensitive_default_case(d)
     T = draw_type(d)
     v = draw_value(d, T)
     return T, v
@@ -720,3 +722,38 @@ def many_choice_case(d):
             v['z'] = d.int(0, 9)
         return T, v
     return T, lst
+
+
+def codec_sensitive_default_case(d):
+    """A record whose constructed DEFAULT holds what BER, CER and DER write differently - BOOLEAN TRUE, SET OF members out of
+    order, a SET - and a value that equals the DEFAULT (given explicitly) or differs from it in one place. -> (T, v)"""
+    shape = d.pick(['bools', 'setof', 'set', 'nested'])
+    if shape == 'bools':
+        D0 = ir.mk('SEQUENCEOF', of=ir.mk('BOOLEAN'))
+        dv = [True] * d.int(1, 3)
+        other = [True] * len(dv) + [False]
+    elif shape == 'setof':
+        D0 = ir.mk('SETOF', of=ir.mk('INTEGER'))
+        dv = [5, 3, 260, 1][:d.int(2, 4)]
+        other = dv[:-1]
+    elif shape == 'set':
+        D0 = ir.mk('SET', comps=[ir.comp('p', ir.mk('OCTETSTRING')), ir.comp('q', ir.mk('BOOLEAN')), ir.comp('r', ir.mk('INTEGER'), 'opt')])
+        dv = {'p': b'x', 'q': True}
+        other = {'p': b'x', 'q': False}
+    else:
+        D0 = ir.mk('SEQUENCE', comps=[ir.comp('p', ir.mk('SETOF', of=ir.mk('OCTETSTRING'))), ir.comp('q', ir.mk('BOOLEAN'), 'def', True)])
+        dv = {'p': [b'b', b'a', b''], 'q': True}
+        other = {'p': [b'b', b'a'], 'q': True}
+    if d.cfg['tags'] and d.pct(40):
+        D0['tags'] = [[d.pick(['E', 'I']) if d.cfg['implicit'] else 'E', 'C', d.int(0, 3)]]
+    T = ir.mk(d.pick(['SEQUENCE', 'SEQUENCE', 'SET']), comps=[ir.comp('a', ir.mk('INTEGER')), ir.comp('c', D0, 'def', dv),
+                                                              ir.comp('z', ir.mk('NULL'), 'opt')])
+    v = {'a': d.int(-2, 300)}
+    r = d.int(0, 9)
+    if r < 5:
+        v['c'] = dv
+    elif r < 8:
+        v['c'] = other
+    if d.pct(40):
+        v['z'] = None
+    return T, v
